@@ -19,7 +19,8 @@ Clauses of the statement and where they are:
   `early_open_not_atomic` shows the statement is falsified as soon as the file is opened for writing before a fallible step;
 * (iv) **header re-synthesis** — `header_outside_parens_preserved`, `header_locate_canonical`, `header_resynth_partial`,
   `header_return_paren_preserved`; the full statement `header_full` is *false* for the code as it is:
-  `header_not_full_default/_vararg/_kwonly/_kwarg/_posonly`, and `header_return_not_preserved_stray_arrow`.
+  `header_not_full_default/_vararg/_kwonly/_kwarg/_posonly`, `header_return_not_preserved_stray_arrow`,
+  `header_wrong_paren_decorator`.
 -/
 namespace C07
 open Py Cst DocTransCst
@@ -388,5 +389,13 @@ theorem header_not_full_posonly : ¬ header_full := by
 theorem header_return_not_preserved_stray_arrow :
     replaceArgsValue (wP ++ ['(','a',')',' ','-','>',' ','"','g','(','x',')',' ','-','>',' ','y','"',':']) [aInt]
       = wP ++ ['(','a',':',' ','i','n','t',')',' ','-','>',' ','y','"',':'] := by decide
+
+/-- **C07 (iv), negation: the opening parenthesis.**  Outside the canonical region (`def` preceded by neither a blank
+    nor `)`, and a parenthesis earlier in the node — here a decorator with a trailing blank, in the file also any
+    tab-indented decorated method) `value.find("(", function_name_starts_at)` finds the decorator's parenthesis:
+    `@dec(1) ⏎def g(a):` ↦ `@dec(a: int):` — the `def` line is gone. -/
+theorem header_wrong_paren_decorator :
+    replaceArgsValue ['\n','@','d','e','c','(','1',')',' ','\n','d','e','f',' ','g','(','a',')',':'] [aInt]
+      = ['\n','@','d','e','c','(','a',':',' ','i','n','t',')',':'] := by decide
 
 end C07
